@@ -6,6 +6,7 @@
 -/
 import Model.Numba
 import Lemmas.Aggregate
+import Lemmas.NumbaSpec
 
 namespace DI.C08
 
@@ -41,5 +42,70 @@ theorem mode_with_missing_counterexample :
     (true by construction of the model: it states what the real JIT must refine). -/
 theorem history_independent_spec (s s' : JitState) (c : Call) (cacheOn cacheOn' : Bool) :
     (stepJ s c cacheOn).2 = (stepJ s' c cacheOn').2 := history_independent s s' c cacheOn cacheOn'
+
+/-! ## strengthened statements (Lemmas/NumbaSpec.lean) -/
+
+/-- `numba_on_eq_off` without its avoidable hypothesis `ids.length = xs.length`: the two paths
+    agree for every helper, column and group-id vector whenever the helper is not sensitive to
+    missing values, or they are dropped, or there are none. -/
+theorem numba_on_eq_off_any_lengths (h : Helper) (d : Bool) (xs : List Num) (ids : List Nat)
+    (hna : naSensitive h = true → (d = true ∨ hasNa xs = false)) :
+    groupFormNumba h d xs ids = groupForm h d xs ids := numba_eq_python' h d xs ids hna
+
+/-- for EVERY helper: on a column without missing values the Numba group form equals the pure
+    group form; no other hypothesis. -/
+theorem numba_on_eq_off_without_missing (h : Helper) (d : Bool) (xs : List Num) (ids : List Nat)
+    (hna : hasNa xs = false) : groupFormNumba h d xs ids = groupForm h d xs ids :=
+  numba_eq_python_no_na h d xs ids hna
+
+/-- for EVERY helper: with drop_na the two paths agree on every column. -/
+theorem numba_on_eq_off_with_drop_na (h : Helper) (xs : List Num) (ids : List Nat) :
+    groupFormNumba h true xs ids = groupForm h true xs ids := numba_eq_python_drop_na h xs ids
+
+/-- the weakest per-group condition: the paths agree as soon as every group, after the NA policy,
+    is safe for the helper — nothing for most helpers, no missing value for mode, at most one
+    missing value for the set-based count_unique. -/
+theorem numba_on_eq_off_groupwise (h : Helper) (d : Bool) (xs : List Num) (ids : List Nat)
+    (hsafe : ∀ xg ∈ chunks ids xs, numbaSafe h (handleNa xg (d && hasNa xs)) = true) :
+    groupFormNumba h d xs ids = groupForm h d xs ids := numba_eq_python_of_safe h d xs ids hsafe
+
+/-- for count_unique the condition is exact: np.unique and len(set(...)) agree on a group iff it
+    holds at most one missing value. -/
+theorem count_unique_kernels_agree_iff (xg : List Num) :
+    kernelNumba (.countUnique false) xg = kernel (.countUnique false) xg ↔ naCount xg ≤ 1 :=
+  countUnique_kernels_agree_iff xg
+
+/-- ... and with two missing values in a group the two paths do differ. -/
+theorem count_unique_with_two_missing_counterexample :
+    groupFormNumba (.countUnique false) false [none, none] [0, 0] ≠
+      groupForm (.countUnique false) false [none, none] [0, 0] := countUnique_two_missing_counterexample
+
+/-- the order-free helpers are order free on the Numba path as well. -/
+theorem numba_kernels_order_free (h : Helper) (ho : orderFree h = true) {xs ys : List Num}
+    (p : xs.Perm ys) : kernelNumba h xs = kernelNumba h ys := kernelNumba_perm h ho p
+
+/-- a whole history of calls: every call returns the Numba group form of its own arguments. -/
+theorem history_outputs (s : JitState) (cs : List (Call × Bool)) :
+    (runJ s cs).2 = cs.map (fun c => groupFormNumba c.1.helper c.1.drop c.1.xs c.1.ids) :=
+  runJ_outputs s cs
+
+/-- the results of a whole history of calls are independent of the initial JIT state (kernels
+    compiled earlier, on-disk cache) and of the cache setting at each call (induction over the
+    history). -/
+theorem history_independent_sequences (s s' : JitState) (cs cs' : List (Call × Bool))
+    (hcalls : cs.map (·.1) = cs'.map (·.1)) : (runJ s cs).2 = (runJ s' cs').2 :=
+  runJ_state_independent s s' cs cs' hcalls
+
+/-- what a call returns does not depend on the calls that preceded it. -/
+theorem history_prefix_irrelevant (s s' : JitState) (pre cs : List (Call × Bool)) :
+    (runJ s (pre ++ cs)).2 = (runJ s pre).2 ++ (runJ s' cs).2 := runJ_append s s' pre cs
+
+/-- a history of calls that are each safe for their helper returns, call by call, exactly what
+    the pure Python path returns. -/
+theorem history_eq_python (s : JitState) (cs : List (Call × Bool))
+    (hsafe : ∀ c ∈ cs, ∀ xg ∈ chunks c.1.ids c.1.xs,
+      numbaSafe c.1.helper (handleNa xg (c.1.drop && hasNa c.1.xs)) = true) :
+    (runJ s cs).2 = cs.map (fun c => groupForm c.1.helper c.1.drop c.1.xs c.1.ids) :=
+  runJ_eq_python s cs hsafe
 
 end DI.C08
